@@ -9,7 +9,9 @@
    hosts / backends / tcp services.
    [wf_hist] = every batch follows the converters' protocol ([wf_batch]: a full sync = Clear
    then acquisitions, or a partial sync = the dirty sets removed once then acquisitions; names
-   within the universes; when the update starts the backend of a host's root path exists).
+   within the universes; when the update starts the backend of a host's root path exists; a
+   backend that needs maps and is not acquired again has only paths of hosts that the batch left
+   as they were - [tracked], what the tracker of the converters provides).
    [shard_range] = shards are below the shard count. *)
 From Coq Require Import NArith List.
 From HI Require Import Model.ConfigSM Model.ConfigSM_Faults Proofs.ConfigSM Proofs.ConfigSM_Faults.
@@ -47,3 +49,15 @@ Theorem C05_hypotheses_satisfiable :
   shard_range w_env /\ wf_hist w_env inst_empty [(w_full2, [])] /\ wf_batch w_env (i_cfg w_s1) w_part.
 Proof. exact (conj w_range wf_hist_example). Qed.
 Print Assumptions C05_hypotheses_satisfiable.
+
+(* the idpath maps of a backend follow the host side: host 0 (alias 100) routes / and /a to
+   backend 0, which needs maps; a partial sync renames the alias to 101 and builds the backend
+   again with the very same content (w_a1, w_a2: the states after the full and the partial
+   sync).  Both batches follow the protocol - [tracked] is not vacuous - and the map holds the
+   keys of the new alias afterwards *)
+Theorem C05_backend_maps_follow_hosts :
+  wf_hist w_env inst_empty [(w_afull, [])] /\ wf_batch w_env (i_cfg w_a1) w_apart /\
+  d_backmap (i_disk w_a1) 0 = Some [(0, 0); (100, 0); (0, 1); (100, 1)] /\
+  d_backmap (i_disk w_a2) 0 = Some [(0, 0); (101, 0); (0, 1); (101, 1)].
+Proof. exact alias_rename_witness. Qed.
+Print Assumptions C05_backend_maps_follow_hosts.
